@@ -346,14 +346,22 @@ def add_chain_allreduce(rng, sc, ranks=None, n_groups=2, interleave=True, incomp
     return sc.coll
 
 
-def write(sc, directory, as_object=False):
-    """writes one file per rank; returns the -i argument (comma list)"""
+def write(sc, directory, as_object=False, dist_info=False):
+    """writes one file per rank; returns the -i argument (comma list).
+    dist_info: object form {"traceEvents": .., "distributedInfo": {"rank": r}} with the events carrying the OS pid of the
+    process instead of the rank (the form a runtime writes: the rank of such a file is what distributedInfo says)"""
     os.makedirs(directory, exist_ok=True)
     names = []
     for fn, evs in sc.files.items():
         p = os.path.join(directory, fn)
+        pids = {e.get("pid") for e in evs}
         with open(p, "w") as fh:
-            json.dump({"traceEvents": evs} if as_object else evs, fh)
+            if dist_info and len(pids) == 1 and isinstance(next(iter(pids)), int):
+                rank = next(iter(pids))
+                json.dump({"distributedInfo": {"rank": rank, "world_size": len(sc.files)},
+                           "traceEvents": [dict(e, pid=41200 + 7 * rank) for e in evs]}, fh)
+            else:
+                json.dump({"traceEvents": evs} if as_object else evs, fh)
         names.append(p)
     return ",".join(names)
 
